@@ -20,6 +20,7 @@ import math
 import os
 
 from harness import common
+from harness.common import fl
 
 EPS = 2.220446049250313e-16
 TOL_IRR = 1e-12     # weights built from floats of 2*pi*k/P or of sines: |w| <= 1, a handful of roundings
@@ -515,11 +516,48 @@ def _prod(item):
   return r.done()
 
 
+def _nanband(item):
+  """RegridNaNBand: strongly coarsening aligned longitude pair with k missing cells of weight 1/r."""
+  import numpy as np
+  from dinosaur import horizontal_interpolation as hi
+  c = item['c']
+  r = _Rec(item)
+  R, nt, k = c['r'], c['nt'], c['k']
+  ns = R * nt
+  # aligned cells: the first target cell spans source cells 1..r, so the target centre is offset by (r-1)/2 source cells
+  gs = _grid(ns, 1, 'gauss', 0.0)
+  gt = _grid(nt, 1, 'gauss', (R - 1) / 2 * 2 * math.pi / ns)
+  f = np.array([((s % 5) - 2) for s in range(1, ns + 1)], dtype=np.float64)
+  holed = f.copy()
+  for s in c['missing']:
+    holed[s - 1] = np.nan
+  fld = np.stack([f, holed])[:, :, None]
+  mean = np.array([fl(x['mean']) for x in c['res']])
+  skip = np.array([fl(x['skip']) for x in c['res']])
+  for skipna in (False, True):
+    got = np.asarray(hi.ConservativeRegridder(gs, gt, skipna=skipna)(fld), dtype=np.float64)[:, :, 0]
+    r.close('nanband:complete_field', got[0], mean, 1e-6)
+    for t in range(nt):
+      r.n += 1
+      g = got[1, t]
+      if skipna:
+        if math.isnan(g) or abs(g - skip[t]) > 1e-6:
+          r.bad('nanband:skipna:value', f'ratio {R}, {k} missing cell(s) of weight 1/{R}: target cell {t}: code {g!r}, mean over the present cells {skip[t]!r}')
+        continue
+      want = c['res'][t]['propagate']
+      if want == 'nan' and not math.isnan(g):
+        r.bad('nanband:propagate:not_missing',
+              f'ratio {R}: {k} missing source cell(s) carry weight {k}/{R} = {k / R:.5f} of target cell {t}, which must be missing; code returns {g!r}')
+      elif want == 'num' and (math.isnan(g) or abs(g - mean[t]) > 1e-6):
+        r.bad('nanband:propagate:untouched_cell', f'ratio {R}: target cell {t} has no missing neighbour: code {g!r}, spec {mean[t]!r}')
+  return r.done()
+
+
 # ----------------------------------------------------------------------------------------
 # dispatch
 # ----------------------------------------------------------------------------------------
 
-_KINDS = {'vert': _vert, 'lonw': _lonw, 'lona': _lona, 'latw': _latw, 'lata': _lata, 'prod': _prod}
+_KINDS = {'vert': _vert, 'lonw': _lonw, 'lona': _lona, 'latw': _latw, 'lata': _lata, 'prod': _prod, 'nanband': _nanband}
 _LIFTED = {k: common.per_case(f, k) for k, f in _KINDS.items()}
 
 
@@ -614,9 +652,14 @@ def run(ctx):
   for i in range(6 if q else 48):
     prods.append({'kind': 'prod', 'lon': glon[(i * 31 + 5) % len(glon)], 'gauss': list(gauss[i % len(gauss)]),
                   'hole': [i, i + 1]})
-  items = vitems + lonw + lona + latw + lata + prods
+  rb = ctx.tlc('RegridNaNBand', 'RegridNaNBand.cfg', workers=2)
+  ctx.require_actions(rb, ['Apply'])
+  if not any(x['propagate'] == 'nan' for c in rb.cases for x in c['res']) or not any(x['propagate'] == 'grey' for c in rb.cases for x in c['res']):
+    raise common.MachineryError('vacuous export of RegridNaNBand')
+  nanband = [{'kind': 'nanband', 'c': c} for c in rb.cases]
+  items = vitems + lonw + lona + latw + lata + prods + nanband
   # heavy (jit-compiling) items first in every shard
-  weight = {'vert': 3, 'lona': 4, 'lata': 4, 'prod': 4, 'lonw': 0, 'latw': 0}
+  weight = {'vert': 3, 'lona': 4, 'lata': 4, 'prod': 4, 'lonw': 0, 'latw': 0, 'nanband': 1}
   items.sort(key=lambda it: -weight[it['kind']])
   res = common.parallel_map('c16', 'replay_items', items, nproc=4, tag='c16',
                             outdir=os.path.join(ctx.out, 'par'))
